@@ -216,7 +216,9 @@ fn builder_alphabet(input: &[u8]) -> Vec<BOp> {
             a.push(BOp::Mode(m));
         }
     }
-    a.extend([BOp::Ecl(0), BOp::Ecl(3), BOp::Version(1), BOp::Version(2), BOp::Version(7), BOp::Mask(0), BOp::Mask(5), BOp::Build, BOp::Other(0), BOp::Other(1)]);
+    a.extend([BOp::Ecl(0), BOp::Ecl(3), BOp::Version(1), BOp::Version(2), BOp::Version(7)]);
+    a.extend((0..8u8).map(BOp::Mask));
+    a.extend([BOp::Build, BOp::Other(0), BOp::Other(1)]);
     a
 }
 
@@ -547,7 +549,7 @@ fn judge_execution(p: &Program, results: &[Option<Vec<u64>>], expect: &HashMap<P
 
 pub fn run(ctx: &Ctx) -> Collector {
     let col = Collector::new("C14", "model_checking");
-    col.set_rule("(a) E2 builder histories: for 3 inputs (numeric, alphanumeric, bytes) ALL sequences of exactly depth D (quick 4, thorough 5; every shorter history is a prefix) over {mode(each the input allows), ecl(L|H), version(1|2|7), mask(0|5), build, other1, other2} replayed on a fresh real QRBuilder; model state = option tuple; oracle at every build step: digest of (all 177x177 module bytes, size, four fields, or error kind) = digest computed by a fresh builder with the model tuple in a PRISTINE child process (one process per tuple); unrelated builds interleaved must equal their pristine values too. (b) E2 renderer histories: all sequences to depth 4 over {6 SvgBuilder setters, svg(q1|q2), term(q1|q2)} and to depth 3 (thorough 4) over {5 ImageBuilder setters, png(q1|q2)}: every render = render of a fresh renderer built from the model state, the QRCode digest is unchanged after every render, and all distinct (state, symbol) renders are recomputed in reverse order in a fresh child process. (c) E3 schedules: 6 thread programs (2-3 real threads, 1-2 operations each, incl. two threads sharing one &QRBuilder) under the controlled scheduler at the guarded scheduling points: all interleavings with <= b preemptions (iterative bounding; fine point set and coarse point set, bounds in the evidence); oracle: every thread's result = its sequential pristine result; vacuity guard: racy canary outcomes. Supplementary (sampling, not part of the verdict basis): free-running 16-thread pass. non-trivial = a build or render was observed; distinct = distinct observation digests");
+    col.set_rule("(a) E2 builder histories: for 3 inputs (numeric, alphanumeric, bytes) ALL sequences of exactly depth D (quick 4, thorough 5; every shorter history is a prefix) over {mode(each the input allows), ecl(L|H), version(1|2|7), mask(all 8), build, other1, other2} replayed on a fresh real QRBuilder; model state = option tuple; oracle at every build step: digest of (all 177x177 module bytes, size, four fields, or error kind) = digest computed by a fresh builder with the model tuple in a PRISTINE child process (one process per tuple); unrelated builds interleaved must equal their pristine values too. (b) E2 renderer histories: all sequences to depth 4 over {6 SvgBuilder setters, svg(q1|q2), term(q1|q2)} and to depth 3 (thorough 4) over {5 ImageBuilder setters, png(q1|q2)}: every render = render of a fresh renderer built from the model state, the QRCode digest is unchanged after every render, and all distinct (state, symbol) renders are recomputed in reverse order in a fresh child process. (c) E3 schedules: 6 thread programs (2-3 real threads, 1-2 operations each, incl. two threads sharing one &QRBuilder) under the controlled scheduler at the guarded scheduling points: all interleavings with <= b preemptions (iterative bounding; fine point set and coarse point set, bounds in the evidence); oracle: every thread's result = its sequential pristine result; vacuity guard: racy canary outcomes. Supplementary (sampling, not part of the verdict basis): free-running 16-thread pass. non-trivial = a build or render was observed; distinct = distinct observation digests");
     col.assume("E3 preempts only at the guarded scheduling points (hook H3): a shared buffer whose write->read window lies inside one loop iteration is not split; memory-ordering effects are out of scope (the crate has no atomics)");
     let thorough = ctx.tier.thorough();
 
@@ -568,7 +570,7 @@ pub fn run(ctx: &Ctx) -> Collector {
         for mode in std::iter::once(None).chain((0..3u8).filter(|&m| crate::refmodel::mode_accepts(m as usize, input)).map(Some)) {
             for ecl in [None, Some(0), Some(3)] {
                 for version in [None, Some(1), Some(2), Some(7)] {
-                    for mask in [None, Some(0), Some(5)] {
+                    for mask in std::iter::once(None).chain((0..8u8).map(Some)) {
                         needed.push(PCase { input: input.to_vec(), opts: Opts { mode, ecl, version, mask }, render: Render::None });
                     }
                 }
@@ -632,6 +634,15 @@ pub fn run(ctx: &Ctx) -> Collector {
         return col;
     }
     let sym_digest: Vec<u64> = syms.iter().map(|(_, q)| subject::digest(q)).collect();
+    // terminal renderings of the two symbols, each computed in its own pristine process
+    let term_cases: Vec<PCase> = syms.iter().map(|(c, _)| PCase { render: Render::Term, ..c.clone() }).collect();
+    let term_expect: Vec<u64> = match pristine_each(&term_cases) {
+        Ok(m) => term_cases.iter().map(|c| m[c]).collect(),
+        Err(e) => {
+            col.machinery_error(format!("pristine children: {}", e));
+            return col;
+        }
+    };
     let ralpha = renderer_alphabet();
     let rdepth = 4;
     let rstates: Mutex<HashSet<String>> = Mutex::new(HashSet::new());
@@ -672,9 +683,9 @@ pub fn run(ctx: &Ctx) -> Collector {
                     }
                     ROp::Term(qi) => {
                         let a = syms[*qi].1.to_str();
-                        let b2 = syms[*qi].1.to_str();
-                        if a != b2 {
-                            f.push(("history-dependent-terminal".into(), format!("step {}: two terminal renderings of the same symbol differ", i)));
+                        let d = crate::util::Fnv::new().add_u64(subject::digest(&syms[*qi].1)).add(a.as_bytes()).get();
+                        if d != term_expect[*qi] {
+                            f.push(("history-dependent-terminal".into(), format!("step {}: the terminal rendering differs from the rendering of the same symbol in a pristine process", i)));
                         }
                     }
                 }
